@@ -10,7 +10,7 @@ from .xtypes import INT_LIMITS, is_bool_attr, resolve
 
 P1, P2, P3, P4 = 253, 253**2, 253**3, 253**4
 INT_DOM = {"byte": (0, 254, 255), "char": (0, 1, 252), "short": (0, 253, P2 - 1), "three": (0, P2, P3 - 1), "int": (0, P3, P4 - 1)}
-STR_DOM = ("", "a", "ab~", "ÿy", "€Ā")
+STR_DOM = ("", "a", "ab~", "€Ā", "ÿy")
 BLOB_DOM = (b"", b"\x00\xff", b"ab")
 
 
@@ -62,7 +62,8 @@ def scalar_domain(t, node, env, small=False):
     else:
         d = tuple(struct_domain(t.name, env))
     if small and d is not None and len(d) > 2:
-        d = (d[0], d[-1])
+        # strings keep a y-diaeresis value (visible to sanitisation and chunk framing) AND a value without one
+        d = (d[0], d[-2], d[-1]) if t.kind == "string" and d is STR_DOM else (d[0], d[-1])
     return d
 
 
